@@ -3,8 +3,6 @@ package sim
 // Scenario payload stubs (replaced as scenarios are implemented).
 
 type ConcCase struct{}
-type PFaultCase struct{}
-type RFaultCase struct{}
 type BuildHCase struct{}
 type InteropCase struct{}
 type LifeCase struct{}
